@@ -29,8 +29,15 @@ def fields(seg):
 
 
 def diff_fields(a, b):
+    """names of the differing fields; `rel` is written rel(hang) when avfs' Rel did not return although the
+    reference did, and rel(notcalled) for the inputs after the harness stopped calling a hanging Rel."""
     fa, fb = fields(a), fields(b)
-    return sorted(k for k in set(fa) | set(fb) if fa.get(k) != fb.get(k))
+    d = sorted(k for k in set(fa) | set(fb) if fa.get(k) != fb.get(k))
+    if "rel" in d and "notcalled" in (fa.get("rel"), fb.get("rel")):
+        d[d.index("rel")] = "rel(notcalled)"
+    elif "rel" in d and "loop" in (fa.get("rel"), fb.get("rel")):
+        d[d.index("rel")] = "rel(hang)"
+    return d
 
 
 def classify(case, model, observed):
@@ -119,7 +126,7 @@ def check_C13(ctx):
         if not kinds[k]:
             continue
         # one replay per kind: the shortest case, so that the witness is readable
-        i, c, m, o, fs = min(kinds[k], key=lambda x: (len(x[1]), x[0]))
+        i, c, m, o, fs = min(kinds[k], key=lambda x: (x[4] == ["rel(notcalled)"], len(x[1]), x[0]))
         summ = ", ".join("%s %d" % kv for kv in sorted(byfield[k].items()))
         ctx.violation("path-" + k, what[k] % (len(kinds[k]), summ, readable(c)),
                       {"stream": STREAM, "case": c, "case_readable": readable(c), "model": m, "observed": o,
